@@ -30,7 +30,14 @@ def main():
         for k, job in enumerate(req['jobs']):
             try:
                 if job['kind'] == 'module':
-                    module, _ = MD.build_module(job['desc'])
+                    if job.get('grow'):
+                        # history: the module is serialised once, then grows (late import / notations), then is serialised
+                        # again; the second output must be what a fresh build of the grown module gives
+                        module, _ = MD.build_module(job['desc'], late=False)
+                        MD.serialize(module, os.path.join(d, 'j%d-first' % k), 'm', job['fmt'], job['optimize'])
+                        MD.apply_late(module, job['desc'])
+                    else:
+                        module, _ = MD.build_module(job['desc'])
                     out = os.path.join(d, 'j%d' % k)
                     MD.serialize(module, out, 'm', job['fmt'], job['optimize'])
                     exts = ('ml-gamma', 'ml-claim', 'ml-proof') if job['fmt'] == 'binary' else ('pretty-gamma', 'pretty-claim', 'pretty-proof')
